@@ -404,6 +404,21 @@ for path in files:
                 if list(a.fields) != want_fields:
                     results["mismatches"].append({"key": key + ":digi-fields", "what": f"{fname} {bpath} ({m['cls']}), {label}: presented fields {list(a.fields)}, "
                                                   f"expected the raw-data members at top level: {want_fields}"}); break
+        # partial reads: every event keeps ITS objects (no member shifted between events), also when the read does not start at
+        # the first event of the basket and when the post-processing (digi flattening) sees a trimmed view
+        nev = len(model)
+        if nev >= 3 and m["kind"][0] in ("obj", "cgem"):
+            for a, b in ((1, nev), (nev // 2, nev - 1), (nev - 1, nev)):
+                try:
+                    part = canon(ak.to_layout(br.array(entry_start=a, entry_stop=b)))
+                except Exception as e:
+                    results["mismatches"].append({"key": key + ":partial-read", "what": f"{fname} {bpath}: array(entry_start={a}, entry_stop={b}) raised {type(e).__name__}: {str(e)[:200]}"}); break
+                dd = first_diff(model[a:b], part, [])
+                n_values += count_leaves(model[a:b])
+                if dd:
+                    pp, what = dd
+                    results["mismatches"].append({"key": key + ":partial-read", "what": f"{fname} {bpath} ({m['cls']}): array(entry_start={a}, entry_stop={b}) differs from the stored "
+                                                  f"events {a}..{b - 1}: first difference at {describe(pp)}: {what}"}); break
         nobj = sum(len(e) for e in model) if m["kind"][0] != "map" else sum(len(e) for e in model)
         rec.update({"events": len(model), "objects": nobj, "values": count_leaves(model)})
         n_objects += nobj; n_values += rec["values"]
